@@ -1,6 +1,6 @@
 # ./check configuration for C17 (merged by mc/props.py)
 PROP = dict(
-    pkg=".", test="TestVerifC17", files=["mc/c17/*.go"], libs=["explore", "canon", "sim", "wireobs"],
+    pkg=".", test="TestVerifC17", files=["mc/c17/*.go"], libs=["explore", "canon", "sim", "wireobs", "wiremon"],
     engine="E2 simx", level="fault_enumeration", shards="ncpu", gomaxprocs=1,
     env={"GODEBUG": "randseednop=0,asyncpreemptoff=1"},
     deterministic=False, crash_is_violation=True,
@@ -9,7 +9,7 @@ PROP = dict(
     assumptions=["goroutine interleavings inside the connection are chosen by the Go runtime (GOMAXPROCS=1), not enumerated; oracles are schedule-independent",
                  "crypto/rand pinned per run with cryptotest.SetGlobalRandom; math/rand seeded",
                  "calls are blocked by construction: the server application never answers, its windows and stream limits are tiny"],
-    level_text="Exhaustive enumeration, on real client and server in virtual time, of close cause x set of concurrently blocked client calls (all subsets up to a size bound) x position of the cause x idle/keep-alive configuration x one fault on the closing exchange. Every blocked call must return promptly with the one recorded cause, later calls must return it at once, the peer must learn of it where a CONNECTION_CLOSE is due, routing entries / reset tokens / goroutines must be gone after the closing period, and idle timeouts must fire inside their window and never while keep-alives are answered.",
+    level_text="Exhaustive enumeration, on real client and server in virtual time, of close cause x set of concurrently blocked client calls (all subsets up to a size bound) x position of the cause x idle/keep-alive configuration x one fault on the closing exchange. Every blocked call must return promptly with the one recorded cause, later calls must return it at once, the peer must learn of it where a CONNECTION_CLOSE is due, routing entries / reset tokens / goroutines must be gone after the closing period, and idle timeouts must fire inside their window and never while keep-alives are answered. Every execution is also read by the passive wire monitor (mc/lib/wiremon): each datagram either endpoint SENT is opened with independent packet protection (mc/lib/ref5, secrets from the TLS key log), its frames are parsed by an independent parser, and sender-side invariants are checked (packet numbers increase and stay decodable for what the sender knows to be acknowledged; ACK frames name only packets whose intact copy had arrived; retransmissions never change stream or CRYPTO bytes; data, stream counts and final sizes stay within the limits that had reached the sender, read from the ClientHello / EncryptedExtensions; frames fit their encryption level; 1-RTT packets use connection IDs the peer issued and the sender has not retired; nothing but CONNECTION_CLOSE after CONNECTION_CLOSE). What an endpoint can have received is over-approximated from fates and virtual times, so the monitor can miss but not invent a violation; exchanges with injected datagrams are not judged by it.",
     level_note="Trusted: simnet + synctest virtual time (goroutine release is decided by the bubble terminating); the fatal-transport-error cause is not built (it needs a misbehaving peer); goroutine interleavings inside the connection are the runtime's, not enumerated.",
     technique="exhaustive close-cause x blocked-call-set x timing enumeration on real endpoints in virtual time",
 )
